@@ -137,10 +137,15 @@ def fit_tilt_rules(chk, repo, clause):
     ptt = nf.attr(SELF, 'ptt_vector')
     mono = [p for p in returns(paths) if any(c == nf.app('eq', nf.attr(SELF, 'size'), C(1)) and pol for c, pol, _ in p.conds)]
     seg = [p for p in returns(paths) if any(c == nf.app('eq', nf.attr(SELF, 'size'), C(1)) and pol is False for c, pol, _ in p.conds)]
-    if len(mono) != 1 or len(seg) != 1:
+    if not mono or not seg:
         raise AnalysisError('fit_tilt: monolithic / segmented paths not identified')
-    # monolithic
-    p = mono[0]
+    for p in mono:
+        _fit_tilt_mono(chk, f, p, opd, ptt, clause)
+    for p in seg:
+        _fit_tilt_seg(chk, f, p, opd, ptt, clause)
+
+
+def _fit_tilt_mono(chk, f, p, opd, ptt, clause):
     ls = [e for e in p.events if e.kind == 'call' and e.data.get('callee') == 'ext:numpy.linalg.lstsq']
     okm = len(ls) == 1 and ls[0].data['args'][0] == nf.app('T', ptt) and ls[0].data['args'][1] in [nf.app('m:ravel', o) for o in opd]
     chk.ob(clause, 'D-flow', f.key, 'monolithic: least squares of the OPD against the full piston/tip/tilt basis', okm,
@@ -160,8 +165,9 @@ def fit_tilt_rules(chk, repo, clause):
                     corr = da
         oks = corr is not None and corr[2][1] in [nf.attr(o, 'shape') for o in opd]
     chk.ob(clause, 'D-flow', f.key, 'monolithic: OPD := OPD - (tip/tilt ramp reshaped to the OPD)', oks, '', f.loc())
-    # segmented
-    p = seg[0]
+
+
+def _fit_tilt_seg(chk, f, p, opd, ptt, clause):
     lps = [lp for lp in p.state.loops if lp['func'] == f.key]
     if not lps:
         raise AnalysisError('fit_tilt: segment loop not found')
@@ -299,12 +305,83 @@ def sampling_rules(chk, repo, clause):
     chk.ob(clause, 'T-comparison', f.key, 'samples of the common grid inside the closed range of the operand',
            len(rets) == 1 and rets[0].ret == want, fmt(rets[0].ret)[:200] if rets else '', f.loc())
     f, paths, _ = analyse(repo, 'radiometry._sampling', config={'method': Const('min')})
-    okmin = False
+    wave = S('wave')
+
+    def is_min(v):
+        a = v.single_atom() if isinstance(v, Poly) else None
+        return a if a is not None and is_app(a, ('amin', 'min', 'm:min', 'nanmin')) else None
+
+    def steps_of(x, of):
+        """x is the smallest spacing of `of`: amin(diff(of)) or the same via _sampling(of, 'min')"""
+        a = is_min(x)
+        if a is not None:
+            inner = a[2][0]
+            d = inner.single_atom() if isinstance(inner, Poly) else None
+            if d is not None and is_app(d, ('diff', 'ediff1d')) and nf.strip_apps(d[2][0], ('asarray', 'copy', 'array')) == of:
+                return True
+            if isinstance(inner, Poly) and inner == nf.index(of, nf.Slice(C(1), NONE)) - nf.index(of, nf.Slice(NONE, C(-1))):
+                return True
+            return None
+        a = x.single_atom() if isinstance(x, Poly) else None
+        if a is not None and is_app(a, 'call:radiometry._sampling'):
+            b = {k.items[0].value: k.items[1] for k in a[2] if isinstance(k, Tup)}
+            if nf.strip_apps(b.get('wave'), ('asarray', 'copy', 'array')) == of and b.get('method') in (Const('min'), None):
+                return True
+        return None
+
+    ok_arr = ok_list = None
+    det_arr = det_list = 'path not found'
     for p in returns(paths):
-        a = p.ret.single_atom() if isinstance(p.ret, Poly) else None
-        if a is not None and is_app(a, 'amin'):
-            okmin = True
-    chk.ob(clause, 'D-flow', f.key, "sampling 'min' = the smallest step found in either operand", okmin, '', f.loc())
+        listy = any(pol and 'list' in fmt(c) for c, pol, _ in p.conds)
+        if not listy:
+            r = steps_of(p.ret, wave)
+            det_arr = f'returns {fmt(p.ret)[:120]}'
+            if r:
+                ok_arr = True
+            elif is_min(p.ret) is None and not any(is_app(x, ('amin', 'min', 'm:min', 'sort', 'partition')) or x[0] == 'loop'
+                                                   for x in nf.value_atoms(p.ret)):
+                ok_arr = False          # no minimum is taken at all: one particular step is not the finest one
+                det_arr += ', which is not a minimum over the spacings of the grid'
+        else:
+            det_list = f'returns {fmt(p.ret)[:160]}'
+            a = is_min(p.ret)
+            if a is None:
+                if not any(is_app(x, ('amin', 'min', 'm:min')) or x[0] == 'loop' for x in nf.value_atoms(p.ret)):
+                    ok_list, det_list = False, det_list + ', which is not a minimum over the operands'
+                continue
+            inner = a[2][0].single_atom() if isinstance(a[2][0], Poly) else None
+            elem = None
+            if inner is not None and inner[0] == 'loop':
+                for lp in p.state.loops:
+                    for ends in lp['ends']:
+                        for nm, v in ends.items():
+                            va = v.single_atom() if isinstance(v, Poly) else None
+                            if va is not None and is_app(va, 'append') and lp['iter'] == wave:
+                                elem = va[2][1]
+            elif inner is not None and is_app(inner, ('listcomp', 'genexp')) and inner[2][-1] == wave:
+                elem = inner[2][0]
+            if elem is not None:
+                its = [x for x in nf.value_atoms(elem) if x[0] == 'iter']
+                if its:
+                    r = steps_of(elem, nf.index(wave, Poly.atom(its[0])))
+                    if r:
+                        ok_list = True
+                    elif not any(is_app(x, ('amin', 'min', 'm:min', 'call:radiometry._sampling')) for x in nf.value_atoms(elem)):
+                        ok_list, det_list = False, det_list + ': the per-operand value is not its smallest step'
+    chk.ob(clause, 'D-flow', f.key, "sampling 'min' of one grid = its smallest step min(diff(wave))", ok_arr, det_arr, f.loc())
+    chk.ob(clause, 'D-flow', f.key, "sampling 'min' = the smallest step found in either operand", ok_list, det_list, f.loc())
+    for m, k in (('left', 0), ('right', 1)):
+        _, ps, _ = analyse(repo, 'radiometry._sampling', config={'method': Const(m)})
+        good, det = None, ''
+        for p in returns(ps):
+            r = steps_of(p.ret, nf.index(wave, C(k)))
+            det = f'returns {fmt(p.ret)[:120]}'
+            if r:
+                good = True if good is None else good
+            else:
+                other = steps_of(p.ret, nf.index(wave, C(1 - k)))
+                good = False if other else (None if good is not False else good)
+        chk.ob(clause, 'D-flow', f.key, f"sampling '{m}' = the smallest step of operand {k}", good, det, f.loc())
 
 
 def zernike_polar_rules(chk, repo, clause):
